@@ -5,6 +5,7 @@
 -/
 import SkyllhModel.Model.Livetime
 import SkyllhModel.Proofs.Livetime
+import SkyllhModel.Proofs.LivetimeBetween
 import Mathlib.Order.Basic
 import Mathlib.Algebra.Order.Field.Basic
 import Mathlib.Tactic
@@ -128,6 +129,22 @@ theorem c14_between_eq_inter (ivs : List (F × F)) (t0 t1 t : F) :
       exact ⟨p, ⟨hp, lt_of_le_of_lt h0 hp2, le_trans hp1 (le_of_lt h1)⟩, rfl⟩
     · simp only; split_ifs <;> assumption
     · simp only; split_ifs <;> assumption
+
+/-- **window query, as coded**: on sorted non-overlapping intervals and `t0 ≤ t1` the index
+arithmetic of `get_uptime_intervals_between` (digitize, parity adjustment, slice of the flat edge
+array, the early return for an empty intersection) never raises and returns exactly the
+specification form — hence, with `c14_between_eq_inter`, exactly on-time ∩ window. -/
+theorem c14_between_idx_refines (ivs : List (F × F)) (t0 t1 : F) (h01 : t0 ≤ t1)
+    (hs : C14.Sorted ivs) : betweenIdx ivs t0 t1 = some (betweenSpec ivs t0 t1) :=
+  C14.betweenIdx_eq_spec ivs t0 t1 h01 hs
+
+/-- the two statements combined, for the function the code implements -/
+theorem c14_between_idx_eq_inter (ivs : List (F × F)) (t0 t1 : F) (h01 : t0 ≤ t1)
+    (hs : C14.Sorted ivs) :
+    ∃ r, betweenIdx ivs t0 t1 = some r ∧
+      ∀ t, C14.InOn r t ↔ (isOn ivs t = true ∧ t0 ≤ t ∧ t < t1) := by
+  refine ⟨betweenSpec ivs t0 t1, c14_between_idx_refines ivs t0 t1 h01 hs, fun t => ?_⟩
+  rw [c14_between_eq_inter, c14_is_on_iff ivs t hs]
 
 /-- every returned interval lies inside the window and inside one original interval -/
 theorem c14_between_within (ivs : List (F × F)) (t0 t1 : F) (h01 : t0 ≤ t1)
